@@ -49,7 +49,7 @@ func main() {
 	c := hx.New("C05")
 	defer c.Finish()
 	lib.Init()
-	total := c.Pick(16000, 480000)
+	total := c.Pick(64000, 2400000)
 	per := total / c.NBatch
 	from, to := c.Range(per)
 	for k := from; k < to; k++ {
